@@ -136,7 +136,12 @@ func (x *XmlNode) field(m meta.Leafable) (string, bool) {
 // leafText is the value of a leaf element. White space is part of a string value, for all
 // other types white space around the value is not significant.
 func (x *XmlNode) leafText(m meta.Leafable) string {
-	if m.Type().Format().Single() == val.FmtString {
+	t := m.Type()
+	// a leafref holds values of the type of the leaf it points at (a chain of them ends at one that resolves to itself)
+	for i := 0; i < 16 && t.Format().Single() == val.FmtLeafRef && t.Resolve() != t; i++ {
+		t = t.Resolve()
+	}
+	if t.Format().Single() == val.FmtString {
 		return string(x.Content)
 	}
 	return x.ContentTrim()
